@@ -78,10 +78,16 @@ ICUFormatNumberFunctor::~ICUFormatNumberFunctor()
 {
     using std::for_each;
 
-    for_each(
-        m_decimalFormatCache.begin(),
-        m_decimalFormatCache.end(),
-        DecimalFormatCacheStruct::DecimalFormatDeleteFunctor(m_memoryManager));
+    // (empty() does not create the head node of a container that has
+    // never been used, which begin() would; clean-up code must not
+    // allocate memory.)
+    if (m_decimalFormatCache.empty() == false)
+    {
+        for_each(
+            m_decimalFormatCache.begin(),
+            m_decimalFormatCache.end(),
+            DecimalFormatCacheStruct::DecimalFormatDeleteFunctor(m_memoryManager));
+    }
 }
 
 
